@@ -274,4 +274,23 @@ MUTANTS = [
     dict(p="C20", id="ctl-cache-add-early-cleanup", file="versatiles_core/src/types/limited_cache.rs", control=True, checks=["C20"],
          old="		if self.cache.len() >= self.max_length {\n			self.cleanup();\n		}\n\n		self.last_index += 1;", new="		self.last_index += 1;\n		if self.cache.len() >= self.max_length {\n			self.cleanup();\n		}\n",
          why="stamp incremented before the cleanup (independent statements reordered)"),
+    dict(p="C01", id="ctl-block-size-const", file="versatiles_container/src/container/versatiles/types/block_definition.rs", control=True, checks=["C01", "C16", "C19"],
+         old="PLACEHOLDER", new="PLACEHOLDER", why="literal 256 replaced by a named constant in block_definition.rs",
+         regex=[(r"\b256u32\b", "BLOCK_SIZE"), (r"\* 256\b", "* BLOCK_SIZE"), (r"^(use [^\n]*;\n)", r"\1\nconst BLOCK_SIZE: u32 = 256;\n")], regex_count={2: 1}),
+    dict(p="C01", id="ctl-writer-trace-lines", file="versatiles_container/src/container/versatiles/writer.rs", control=True, checks=["C01", "C12", "C04", "C02"],
+         old='		trace!("write blocks");', new='		trace!("write blocks");\n		log::debug!("writer position before blocks: {:?}", writer.get_position());',
+         why="extra logging that reads the writer position"),
+    dict(p="C12", id="ctl-pm-writer-message", file="versatiles_container/src/container/pmtiles/writer.rs", control=True, checks=["C12", "C01", "C04"],
+         old='"converting tiles"', new='"converting tiles to pmtiles"', why="progress message changed"),
+    dict(p="C08", id="ctl-overlay-lookup-iterator", file="versatiles_pipeline/src/operations/read/from_overlayed.rs", control=True, checks=["C08", "C02", "C03"],
+         old="		for source in self.sources.iter() {\n			let result = source.get_tile_data(coord).await?;", new="		for source in &self.sources {\n			let result = source.get_tile_data(coord).await?;",
+         why="`for x in &v` instead of `v.iter()`"),
+    dict(p="C20", id="ctl-cache-doc-and-assert", file="versatiles_core/src/types/limited_cache.rs", control=True, checks=["C20", "C19"],
+         old="		self.last_index += 1;\n		// Insert or replace.", new="		self.last_index += 1;\n		debug_assert!(self.max_length >= 1);\n		// Insert or replace.",
+         why="debug assertion added"),
+    dict(p="C07", id="ctl-static-trace", file="versatiles/src/tools/server/sources/static_source_folder.rs", control=True, checks=["C07", "C05"],
+         old="		let mime = guess_mime(&local_path);", new="		log::trace!(\"serving {:?}\", local_path);\n		let mime = guess_mime(&local_path);",
+         why="trace line printing the path"),
+    dict(p="C14", id="ctl-parallel-rename-closure-args", file="versatiles_core/src/types/tile_stream.rs", control=True, checks=["C14"],
+         old="PLACEHOLDER", new="PLACEHOLDER", why="rename arc_cb / cb in the parallel operators", regex=[(r"\barc_cb\b", "shared_callback"), (r"\bcb\b", "callback_ref")]),
 ]
